@@ -58,20 +58,21 @@ def run(ctx, chk):
     K = "each(Y['{}'].items())"
     for k in ("sensitive_hosts", "firewall"):
         it = K.format(k)
-        want = f"{{eval({it}[0]): {it}[1]}}"
+        want = f"{{eval({it}[0]): {it}[1] for {it}}}"
         chk.ob("C17.routing", f"scenario['{k}'] = the document's section with evaluated address "
                "keys, values unchanged", items.get(k) == want, f"{items.get(k)}", path)
     chk.ob("C17.routing", "scenario['step_limit'] = the document's step_limit, None when absent",
-           items.get("step_limit") == "('step_limit' notin Y ? None : Y['step_limit'])",
+           items.get("step_limit") == "('step_limit' in Y ? Y['step_limit'] : None)",
            f"{items.get('step_limit')}", path)
     HCI = "each(Y['host_configurations'].items())"
     hosts_t = h["items"].get("host")
-    ok = hosts_t is not None and hosts_t[0] == "dictobj"
-    if ok:
-        hh = ip.heap[hosts_t[1]]
-        ok = not hh["items"] and len(hh["dyn"]) == 1 and \
-            cn.show(hh["dyn"][0][0]) == f"eval({HCI}[0])" and hh["dyn"][0][1][0] == "new" \
-            and hh["dyn"][0][1][1] == "Host"
+    from .shapes import as_mapping, mapping_value_term
+    mp = as_mapping(ip, cn, hosts_t)
+    ok = False
+    if mp is not None:
+        vt = mapping_value_term(ip, hosts_t)
+        ok = mp[0] == f"eval({HCI}[0])" and mp[2] == ["Y['host_configurations'].items()"] \
+            and mp[3] == ("true",) and vt[0] == "new" and vt[1] == "Host"
     chk.ob("C17.routing", "scenario['host'] maps every evaluated address of host_configurations to "
            "a Host built from that configuration", bool(ok), items.get("host", "missing")[:200],
            path)
@@ -126,16 +127,19 @@ def run(ctx, chk):
         ev = news[0]
         kw = {k: v for k, v in ev.data["kwargs"]}
         HC = f"{HCI}[1]"
-        SENS = "{eval(each(Y['sensitive_hosts'].items())[0]): each(Y['sensitive_hosts'].items())[1]}"
+        SENS = "{eval(each(Y['sensitive_hosts'].items())[0]): each(Y['sensitive_hosts'].items())[1]" \
+               " for each(Y['sensitive_hosts'].items())}"
         want = {
             "address": f"eval({HCI}[0])",
-            "os": f"{{each(Y['os']): each(Y['os'])=={HC}['os']}}",
-            "services": f"{{each(Y['services']): each(Y['services']) in {HC}['services']}}",
-            "processes": f"{{each(Y['processes']): each(Y['processes']) in {HC}['processes']}}",
-            "firewall": f"<dictcomp eval(each({HC}['firewall'].items())[0]), "
-                        f"each({HC}['firewall'].items())[1] for each({HC}['firewall'].items())>",
-            "value": f"cases{{eval({HCI}[0]) in {SENS} -> {SENS}[eval({HCI}[0])]; "
-                     f"!(eval({HCI}[0]) in {SENS}) -> {HC}.get('value', 0)}}",
+            "os": f"{{each(Y['os']): each(Y['os'])=={HC}['os'] for each(Y['os'])}}",
+            "services": f"{{each(Y['services']): each(Y['services']) in {HC}['services'] "
+                        "for each(Y['services'])}",
+            "processes": f"{{each(Y['processes']): each(Y['processes']) in {HC}['processes'] "
+                         "for each(Y['processes'])}",
+            "firewall": f"{{eval(each({HC}['firewall'].items())[0]): "
+                        f"each({HC}['firewall'].items())[1] for each({HC}['firewall'].items())}}",
+            "value": f"(eval({HCI}[0]) in {SENS} ? {SENS}[eval({HCI}[0])] : "
+                     f"{HC}.get('value', 0))",
         }
         got = {k: cn.show(v) for k, v in kw.items()}
         for k, w in want.items():
@@ -195,11 +199,12 @@ def check_acceptance(ctx, chk, lf):
             else:
                 by_loops.setdefault(tuple(loops), []).append(c)
     HC = "each(Y['host_configurations'].items())[1]"
-    benign = {f"len({HC})<3", f"len(Y)<{len(DOC_SECTIONS)}"}
+    # minimum key counts follow from the required keys being present: assumed true
+    benign = {f"2<len({HC})", f"{len(DOC_SECTIONS) - 1}<len(Y)"}
     n = 0
     for g in lf.guards:
         fs = f_show(g.F)
-        if g.loops == ["Y.items()"] or fs.startswith("!len(Y)<"):
+        if g.loops == ["Y.items()"] or (fs.endswith("<len(Y)") and fs[:-7].isdigit()):
             continue                      # section table guards: C18.sections.*
         if len(g.loops) == 1 and g.loops[0].startswith("[(") and "scan_cost" in g.loops[0]:
             doc = [f_not(A(f"each({g.loops[0]})[1]<0"))]
@@ -224,7 +229,7 @@ def check_acceptance(ctx, chk, lf):
         G = g.F
         # benign atoms are assumed (they follow from the required keys being present)
         from sa.canon import f_subst
-        G = f_subst(G, lambda a: ("false",) if a in benign else None)
+        G = f_subst(G, lambda a: ("true",) if a in benign else None)
         ok = bool(f_implies(D, G))
         n += 1
         chk.ob("C17.accept", f"{g.func.split('.')[-1]}: guard `{fs[:140]}` demands no more than "
